@@ -3,6 +3,7 @@ package main
 
 import (
 	"verifharness/hx"
+	"verifharness/ppx"
 	"verifharness/reusex"
 	"verifharness/tdcx"
 )
@@ -13,4 +14,5 @@ func main() {
 	defer w.Close()
 	tdcx.Drive(w, o, "C02", func(s string) string { return "(KTdc " + s + ")" })
 	reusex.Drive(w, o, func(s string) string { return "(KReuse " + s + ")" })
+	ppx.Drive(w, o, func(s string) string { return "(KPool " + s + ")" })
 }
